@@ -126,6 +126,12 @@ func (c09) Gen(tier string, seed int64, emit func([]Ev)) {
 						t = []int{0x34, 0x36}[r.Intn(2)] // the two types that keep sub-segment fields
 					}
 					e["field"], e["arg"] = "seg.type", t
+					if r.Intn(3) == 0 {
+						// a descriptor of a sub-segment type with the flag set, then retyped (to the other
+						// sub-segment type, the same one, or any other type)
+						h = append(h, Ev{"op": "set", "target": e["target"], "field": "seg.type", "arg": []int{0x34, 0x36}[r.Intn(2)]},
+							Ev{"op": "set", "target": e["target"], "field": "seg.hassub", "arg": true})
+					}
 				case 2:
 					e["field"], e["arg"] = "seg.cancel", r.Intn(4) == 0
 				case 3:
